@@ -160,6 +160,8 @@ def judge(case):
 def check_case(case):
     if case.get('kind') == 'batch':
         return check_batch(case)
+    if case.get('kind') in ('hashseed', 'history'):
+        return [finding for finding, _case in _relation(case['kind'], case['seed'], case['examples'])]
     return judge(case)[1]
 
 
@@ -293,34 +295,91 @@ def child_digests(seed_value, examples):
     return out
 
 
-def _hashseed_relation(ctx, stats):
-    examples = 25 if ctx.quick else 400
-    seed_value = ctx.derive_seed('hashseed')
-    results = {}
+def history_digests(seed_value, examples, order):
+    """Per-object output hashes when a fixed family of objects - generated ones of every class with a strategy and
+    parsed unit-test inputs of every class - is serialised in the given order inside one fresh process."""
+    family = []
+    for ref in registry.registered():
+        def case_fn(spec, _stats, ref=ref):
+            obj = _obtain({'spec': spec})
+            if obj is not None:
+                family.append((ref + ':' + hashlib.sha1(jdump(spec).encode()).hexdigest()[:16], obj))
+            return ()
+        hyp.explore(registry.strategy_for(ref), case_fn, Stats(), examples, seed_value ^ (digest(ref) & 0xffff))
+    for cls in lib.concrete_classes():
+        for data in seeds.seeds_for(cls)[:max(1, examples)]:
+            obj = _obtain({'cls': lib.ref_of(cls), 'hex': data.hex()})
+            if obj is not None:
+                family.append((lib.ref_of(cls) + ':' + hashlib.sha1(data).hexdigest()[:16], obj))
+    family = sorted(dict(family).items(), key=lambda pair: pair[0])
+    if order == 'reverse':
+        family.reverse()
+    elif order.startswith('shuffle'):
+        random.Random(int(order[7:] or 0)).shuffle(family)
+    elif order == 'by-class-name':
+        family.sort(key=lambda pair: (type(pair[1]).__name__[::-1], pair[0]))
+    return {key: hashlib.sha1(jdump(_texts(serialise(obj))).encode()).hexdigest()[:16] for key, obj in family}
+
+
+def _children(specs_):
+    """Run child interpreters; specs_: {label: (PYTHONHASHSEED, VERIF_C14_CHILD value)} -> {label: digests}"""
     procs = {}
-    for hashseed in (0, 1, 2, 3):
-        environment = dict(os.environ, PYTHONHASHSEED=str(hashseed), VERIF_C14_CHILD='%d:%d' % (seed_value, examples))
-        procs[hashseed] = subprocess.Popen([sys.executable, '-B', '-m', 'vf.props.c14'], cwd=env.VERIF_DIR, env=environment,
-                                           stdout=subprocess.PIPE, stderr=subprocess.PIPE)
-    for hashseed, proc in procs.items():
-        out, err = proc.communicate(timeout=900)
+    for label, (hashseed, payload) in specs_.items():
+        environment = dict(os.environ, PYTHONHASHSEED=str(hashseed), VERIF_C14_CHILD=payload)
+        procs[label] = subprocess.Popen([sys.executable, '-B', '-m', 'vf.props.c14'], cwd=env.VERIF_DIR, env=environment,
+                                        stdout=subprocess.PIPE, stderr=subprocess.PIPE)
+    results = {}
+    for label, proc in procs.items():
+        out, err = proc.communicate(timeout=1800)
         if proc.returncode != 0:
-            raise RuntimeError('C14 child with PYTHONHASHSEED=%d failed: %s' % (hashseed, err.decode()[-2000:]))
-        results[hashseed] = json.loads(out.decode().strip().splitlines()[-1])
-    reference = results[0]
-    stats.extra['hashseed_cases'] = len(reference)
-    for hashseed in (1, 2, 3):
-        other = results[hashseed]
-        if set(other) != set(reference):
-            stats.notes.append('hashseed %d generated a different case set (%d vs %d) - relation compared on the intersection'
-                               % (hashseed, len(other), len(reference)))
+            raise RuntimeError('C14 child %r failed: %s' % (label, err.decode()[-2000:]))
+        results[label] = json.loads(out.decode().strip().splitlines()[-1])
+    return results
+
+
+def _class_of_key(key):
+    return key.split(':')[1].split('.')[-1] if key.startswith('cryptoparser') else key.split(':')[0]
+
+
+def _relation(kind, seed_value, examples, stats=None):
+    """-> [(Finding, case)] of the cross-process relations: 'hashseed' (same work under four hash seeds) and
+    'history' (same objects, same hash seed, four serialisation orders)."""
+    if kind == 'hashseed':
+        labels = {n: (n, 'hashseed:%d:%d' % (seed_value, examples)) for n in (0, 1, 2, 3)}
+        first = 0
+    else:
+        labels = {order: (0, 'history:%d:%d:%s' % (seed_value, examples, order))
+                  for order in ('forward', 'reverse', 'shuffle1', 'by-class-name')}
+        first = 'forward'
+    results = _children(labels)
+    reference = results[first]
+    found = []
+    if stats is not None:
+        stats.extra[kind + '_cases'] = len(reference)
+    for label, other in results.items():
+        if label == first:
+            continue
+        if set(other) != set(reference) and stats is not None:
+            stats.notes.append('%s child %r generated a different case set (%d vs %d) - compared on the intersection'
+                               % (kind, label, len(other), len(reference)))
         for key in sorted(set(other) & set(reference)):
-            stats.evaluations += 1
-            stats.labels['hashseed'] += 1
+            if stats is not None:
+                stats.evaluations += 1
+                stats.labels[kind] += 1
             if other[key] != reference[key]:
-                name = key.split(':')[1] if key.startswith('cryptoparser') else key.split(':')[0]
-                case = {'kind': 'hashseed', 'key': key, 'hashseeds': [0, hashseed]}
-                stats.finding(Finding('nondeterministic:hashseed/%s' % name.split('.')[-1], {'case_key': key}), case)
+                case = {'kind': kind, 'seed': seed_value, 'examples': examples, 'key': key, 'pair': [first, label]}
+                found.append((Finding('nondeterministic:%s/%s' % (kind, _class_of_key(key)), {'case_key': key, 'pair': [first, label]}), case))
+    return found
+
+
+def _hashseed_relation(ctx, stats):
+    for finding, case in _relation('hashseed', ctx.derive_seed('hashseed'), 25 if ctx.quick else 400, stats):
+        stats.finding(finding, case)
+
+
+def _history_relation(ctx, stats):
+    for finding, case in _relation('history', ctx.derive_seed('history'), 2 if ctx.quick else 12, stats):
+        stats.finding(finding, case)
 
 
 def run(ctx):
@@ -332,6 +391,7 @@ def run(ctx):
         ('parsed', index, shards, mutants, ctx.derive_seed('parsed', index), budget_s) for index in range(shards)]
     stats = pool.run_shards(_job, jobs)
     _hashseed_relation(ctx, stats)
+    _history_relation(ctx, stats)
     return stats
 
 
@@ -352,5 +412,8 @@ def shrink(ctx, key, entry):
 
 if __name__ == '__main__' and os.environ.get('VERIF_C14_CHILD'):
     env.bootstrap()
-    _seed, _examples = os.environ['VERIF_C14_CHILD'].split(':')
-    print(json.dumps(child_digests(int(_seed), int(_examples))))
+    _parts = os.environ['VERIF_C14_CHILD'].split(':')
+    if _parts[0] == 'hashseed':
+        print(json.dumps(child_digests(int(_parts[1]), int(_parts[2]))))
+    else:
+        print(json.dumps(history_digests(int(_parts[1]), int(_parts[2]), _parts[3])))
